@@ -492,6 +492,10 @@ def pad_write(f, chars):
 
 def install(prog):
     M = prog.model
+    # logging is statically disabled (log level comparisons are constant false): exact matches take precedence
+    prog.exact['<Level as PartialOrd<LevelFilter>>::le'] = lambda it, m, a: False
+    prog.exact['<log::Level as PartialOrd<log::LevelFilter>>::le'] = lambda it, m, a: False
+    prog.exact['<LevelFilter as PartialOrd>::le'] = lambda it, m, a: False
 
     # ---- Option / Result -------------------------------------------------------------------
     @M(r'Option::<.*>::unwrap')
@@ -1684,6 +1688,12 @@ def install(prog):
             a[0].set(it.binop(op, x, y, ty))
         return UNIT
 
+
+    @M(r'<(?!Rc<)(?!Vec<)(?!RefCell<)(.+) as Clone>::clone')
+    def _(it, m, a):
+        name = it.prog.resolve_crate(m.group(0))
+        if name: return it.call(name, a)
+        return clone_val(it, deref(a[0]) if not isinstance(deref1(a[0]), Ref) or not isinstance(deref1(a[0]).get(), Ref) else deref1(a[0]))
 
     # ---- generic comparison fallbacks ---------------------------------------------------------------
     @M(r'<(Option|Result)<.*> as PartialEq>::(eq|ne)')
